@@ -661,7 +661,7 @@ func TestC24(t *testing.T) {
 		n := rapid.IntRange(1, 4).Draw(rt, "nreq")
 		var stream []byte
 		for i := 0; i < n; i++ {
-			if i > 0 && uni(rt, g.label("benign"), 3) == 0 {
+			if n > 1 && uni(rt, g.label("benign"), 3) == 0 {
 				stream = append(stream, c24Benign(uni(rt, g.label("benign-kind"), 3))...)
 				continue
 			}
